@@ -285,6 +285,9 @@ def scanner_typestate(f, ptr_pred, rule, R, what, ctype_ok=('isspace', 'isdigit'
         """relation subject is the byte under the pointer: *p, *++p, or a ctype-table lookup of it"""
         if not isinstance(l, dict):
             return False
+        # `(c = *p) != 0`: the value tested is the byte just read
+        while l.get('k') == 'bin' and l.get('op') == '=' and isinstance(l.get('r'), dict):
+            l = l['r']
         if l.get('k') == 'un' and l['op'] == '*':
             e = l['e']
             if ptr_pred(e):
@@ -404,6 +407,41 @@ def scanner_typestate(f, ptr_pred, rule, R, what, ctype_ok=('isspace', 'isdigit'
             if ctype_lookup(l) and op == '!=' and c == 0:
                 return st if is_nz(st) else 'curNZ'
         return st
+    # `c = *p; if (c != 0) ... p++`: a local that holds the byte under the pointer.  State ('peek', v) is 'cur?' plus
+    # "v is that byte": a test of v is a test of the byte, any move of the pointer or store to v ends the pairing.
+    _ev0, _ed0 = on_event, on_edge
+
+    def on_event(st, s):
+        ev = s.ev
+        base = st[2] if (isinstance(st, tuple) and st[0] == 'peek') else st
+        if ev['k'] in ('store', 'decl') and base in ('cur?', 'inner', 'curZ', 'curNZ'):
+            v = ev['lhs']['name'] if ev['k'] == 'store' and is_var(ev.get('lhs')) and ev.get('op') == '=' else ev.get('var') if ev['k'] == 'decl' else None
+            val = ev.get('rhs') if ev['k'] == 'store' else ev.get('init')
+            if v and isinstance(val, dict) and val.get('k') == 'un' and val.get('op') == '*' and ptr_pred(val.get('e')):
+                return ('peek', v, base)
+        if isinstance(st, tuple) and st[0] == 'peek':
+            if ev['k'] == 'store' and is_var(ev.get('lhs'), st[1]):
+                return base
+            r = _ev0(base, s)
+            return st if r == base and not (ev['k'] == 'store' and ptr_pred(ev.get('lhs'))) else r
+        return _ev0(st, s)
+
+    def on_edge(st, e):
+        if isinstance(st, tuple) and st[0] == 'peek':
+            base = st[2]
+            r = rules.edge_rel(e)
+            if r and is_var(r[0], st[1]):
+                c = const_of(r[2])
+                if (r[1] == '==' and c not in (None, 0)) or (r[1] == '!=' and c == 0) or (r[1] in ('>', '>=') and c is not None and c >= 1):
+                    return None if base == 'curZ' else ('peek', st[1], 'curNZ')
+                if r[1] == '==' and c == 0:
+                    return None if base == 'curNZ' else ('peek', st[1], 'curZ')
+                return st
+            r2 = _ed0(base, e)
+            if r2 is None:
+                return None
+            return ('peek', st[1], r2) if r2 in ('cur?', 'inner', 'curZ', 'curNZ') else r2
+        return _ed0(st, e)
     before, at_exit, sin, bout = f.forward('cur?', on_event, on_edge, stop=(stop.bid, stop.idx) if stop is not None else None)
     for st in (at_exit if exit_check else ()):
         if st == 'out' or (isinstance(st, tuple) and st[0] in ('over', 'out')):
